@@ -1497,6 +1497,42 @@ end Cao.Compiler
 namespace Cao.Compiler
 open Cao Cao.Sim
 
+theorem scopeBegin_ok {s s' : CState} {a : Unit} (h : scopeBegin s = .ok (a, s')) :
+    s'.bytecode = s.bytecode ∧ s'.locals = s.locals ∧ s'.functionId = s.functionId ∧ QV s s' := by
+  unfold scopeBegin at h
+  simp only [modify_run, Except.ok.injEq, Prod.mk.injEq, true_and] at h
+  subst h
+  exact ⟨rfl, rfl, rfl, ⟨rfl, rfl, rfl⟩⟩
+
+/-- without locals `scopeEnd` emits nothing -/
+theorem scopeEnd_noloc {s s' : CState} {a : Unit} (hl : NoLoc s) (h : scopeEnd s = .ok (a, s')) :
+    s'.bytecode = s.bytecode ∧ QV s s' ∧ NoLoc s' := by
+  unfold scopeEnd at h
+  obtain ⟨_, s1, h1, h⟩ := bind_ok.1 h
+  simp only [modify_run, Except.ok.injEq, Prod.mk.injEq, true_and] at h1
+  obtain ⟨s2, s2', hg, h⟩ := bind_ok.1 h
+  simp only [get_run, Except.ok.injEq, Prod.mk.injEq] at hg
+  obtain ⟨rfl, rfl⟩ := hg
+  have hfid : s1.functionId = 0 := by rw [← h1]; exact hl.fid
+  have hls : s1.locals.getD s1.functionId [] = [] := by
+    rw [← h1]; show s.locals.getD s.functionId [] = []; rw [hl.fid]; exact hl.none
+  simp only [hls, List.reverse_nil, List.dropWhile_nil, List.length_nil, List.drop_nil, List.map_nil] at h
+  obtain ⟨_, s3, h3, h4⟩ := bind_ok.1 h
+  simp only [modify_run, Except.ok.injEq, Prod.mk.injEq, true_and] at h3
+  obtain ⟨b4, l4, v4⟩ := emitBytes_ok h4
+  have hl3 : NoLoc s3 := by
+    subst h3
+    refine ⟨hfid, ?_⟩
+    show (s1.locals.set s1.functionId []).getD 0 [] = []
+    rw [hfid] at hls ⊢
+    simp only [List.getD_eq_getElem?_getD] at hls ⊢
+    by_cases h0 : 0 < s1.locals.length
+    · rw [List.getElem?_set_self h0]; rfl
+    · rw [List.getElem?_eq_none (by rw [List.length_set]; omega)]; rfl
+  subst h3
+  subst h1
+  refine ⟨by rw [b4]; simp, ⟨by rw [v4.ids], by rw [v4.next], by rw [v4.data]⟩, hl3.of_ql l4⟩
+
 section
 variable (B : Array UInt8) (F : List (UInt32 × Nat)) (hB : B.size < 4294967296)
   (hF : ∀ p ∈ F, p.2 < 4294967296)
@@ -1568,48 +1604,64 @@ theorem whileCode_spec {c b : Card} (PB : Nat → Nat → Prop)
   obtain ⟨b7, l7, v7⟩ := popSub_ok h7
   obtain ⟨s3, s4, h8, e3, l3, v3, e5, l5, v5, hge, g1, g2, g3, g4⟩ :=
     encodeIfThen_ok (fun k => by have := processCard_mono (k := k) b; mono) h6
-  obtain ⟨_, s6, h9, h⟩ := bind_ok.1 h8
+  obtain ⟨_, s3b, h8b, h⟩ := bind_ok.1 h8
+  obtain ⟨bsb, lsb, fsb, vsb⟩ := scopeBegin_ok h8b
+  obtain ⟨_, s6, h9, h⟩ := bind_ok.1 h
+  obtain ⟨_, s6e, h9e, h⟩ := bind_ok.1 h
   obtain ⟨_, s7, h10, h11⟩ := bind_ok.1 h
   obtain ⟨b10, l10, v10⟩ := pushInstr_ok h10
   obtain ⟨b11, l11, v11⟩ := emitBytes_ok h11
   have em : s1''.bytecode.size = s1.bytecode.size := by rw [b2, b1]
   rw [em] at e3 hge g1 g2 g3 g4
+  have e3b : s3b.bytecode.size = s1.bytecode.size + 5 := by rw [bsb, e3]
   have hsz1 := processCard_size_le h4
   have hsz6 := processCard_size_le h9
   have esa : sa.bytecode.size = s0.bytecode.size := by rw [ba]
   have esz' : s'.bytecode.size = s4.bytecode.size := by rw [b7, e5]
-  have hb4 : s4.bytecode = s6.bytecode.push op.goto ++ (le32 (UInt32.ofNat s0.bytecode.size)).toArray := by
+  have hb4e : s4.bytecode = s6e.bytecode.push op.goto ++ (le32 (UInt32.ofNat s0.bytecode.size)).toArray := by
     rw [b11, b10]
-  have e4 : s4.bytecode.size = s6.bytecode.size + 5 := by rw [hb4]; simp [le32_length]
+  have hext6 := ((scopeEnd_mono (k := s6.bytecode.size)).run _ _ _ h9e (Nat.le_refl _)).1
+  have hsz6e := hext6.size_le
+  have e4e : s4.bytecode.size = s6e.bytecode.size + 5 := by rw [hb4e]; simp [le32_length]
   have hvr := (processCard_vr b).run _ _ _ h9
   have hv4 : ∃ t, F = s4.varIds ++ t := vpre_eq (vpre_eq hv v7.ids) v5.ids
-  have hv6 : ∃ t, F = s6.varIds ++ t := vpre_eq (vpre_eq hv4 v11.ids) v10.ids
+  have hv6e : ∃ t, F = s6e.varIds ++ t := vpre_eq (vpre_eq hv4 v11.ids) v10.ids
   obtain ⟨hl1, hcc⟩ := ecode_of_processCard B F hF c hc sa s1 h4 (hl.of_ql la)
     (by
       rw [ba]
       refine hag.sub (Nat.le_refl _) (by omega) fun i _ hi => ?_
       rw [b7, g4 i hi, b2, b1])
     (by
-      obtain ⟨t, ht⟩ := vpre_back hv6 hvr
-      exact ⟨t, by rw [ht, v3.ids, v2.ids, v1.ids]⟩)
+      obtain ⟨t, ht⟩ := vpre_back (vpre_back hv6e (scopeEnd_vr.run _ _ _ h9e)) hvr
+      exact ⟨t, by rw [ht, vsb.ids, v3.ids, v2.ids, v1.ids]⟩)
+  have hv6 : ∃ t, F = s6.varIds ++ t := vpre_back hv6e (scopeEnd_vr.run _ _ _ h9e)
   have h46 : ∀ i, i < s6.bytecode.size → s4.bytecode[i]? = s6.bytecode[i]? := fun i hi => by
-    rw [hb4, Array.getElem?_append_left (by simp; omega), Array.getElem?_push_lt hi]; simp
-  obtain ⟨hl6, hcb⟩ := ihb s3 s6 h9 (hl1.of_ql ((l1.trans l2).trans l3))
+    rw [hb4e, Array.getElem?_append_left (by simp; omega), ← hext6.pref i hi,
+      Array.getElem?_push_lt (by omega)]
+    simp
+  have hl3b : NoLoc s3b := by
+    have hl3 := hl1.of_ql ((l1.trans l2).trans l3)
+    exact ⟨fsb.trans hl3.fid, by rw [lsb]; exact hl3.none⟩
+  obtain ⟨hl6, hcb⟩ := ihb s3b s6 h9 hl3b
     (by
-      rw [e3]
+      rw [e3b]
       refine hag.sub (by omega) (by omega) fun i hi hi' => ?_
       rw [b7, g3 i hi, h46 i hi'])
     hv6
+  obtain ⟨b6e, _, hl6e⟩ := scopeEnd_noloc hl6 h9e
+  have hb4 : s4.bytecode = s6.bytecode.push op.goto ++ (le32 (UInt32.ofNat s0.bytecode.size)).toArray := by
+    rw [hb4e, b6e]
+  have e4 : s4.bytecode.size = s6.bytecode.size + 5 := by rw [hb4]; simp [le32_length]
   have hlt : s4.bytecode.size < 4294967296 := by have := hag.size_le; omega
   have hag4 : AgreeFrom B s4 (s1.bytecode.size + 5) :=
     hag.sub (by omega) (by omega) fun i hi _ => by rw [b7, g3 i hi]
   obtain ⟨a1, a2, a3⟩ := agree_instr (a := s6.bytecode) hb4 (hag4.weaken (by omega))
-  refine ⟨hl6.of_ql (((l10.trans l11).trans l5).trans l7), s1.bytecode.size, s6.bytecode.size,
+  refine ⟨hl6e.of_ql (((l10.trans l11).trans l5).trans l7), s1.bytecode.size, s6.bytecode.size,
     by rw [ba] at hcc; exact hcc, ?_, ?_, ?_, a1, ?_, by omega⟩
   · rw [hag.getD (by omega) (by omega), b7]; exact g1
   · rw [hag.rdU32 (by omega) (by omega), b7, e5]
     exact rdU32_patched hlt g2
-  · rw [e3] at hcb; exact hcb
+  · rw [e3b] at hcb; exact hcb
   · exact rdU32_patched (by have := hag.size_le; omega) (fun j hj => a2 j (by rw [le32_length]; exact hj))
 
 theorem ifElseCode_spec {c t e : Card} (PT PE : Nat → Nat → Prop)
@@ -1959,24 +2011,6 @@ theorem addFunctions_ok : ∀ (fs : List FunctionIr) {s s' : CState} {a : Unit},
       simp at h3
     · simp only [modify_run, Except.ok.injEq, Prod.mk.injEq, true_and] at h1
       rw [e2, ← h1]
-
-theorem scopeEnd_noloc {s s' : CState} {a : Unit} (hl : NoLoc s) (h : scopeEnd s = .ok (a, s')) :
-    s'.bytecode = s.bytecode ∧ QV s s' := by
-  unfold scopeEnd at h
-  obtain ⟨_, s1, h1, h⟩ := bind_ok.1 h
-  simp only [modify_run, Except.ok.injEq, Prod.mk.injEq, true_and] at h1
-  obtain ⟨s2, s2', hg, h⟩ := bind_ok.1 h
-  simp only [get_run, Except.ok.injEq, Prod.mk.injEq] at hg
-  obtain ⟨rfl, rfl⟩ := hg
-  have hls : s1.locals.getD s1.functionId [] = [] := by
-    rw [← h1]; show s.locals.getD s.functionId [] = []; rw [hl.fid]; exact hl.none
-  simp only [hls, List.reverse_nil, List.dropWhile_nil, List.length_nil, List.drop_nil, List.map_nil] at h
-  obtain ⟨_, s3, h3, h4⟩ := bind_ok.1 h
-  simp only [modify_run, Except.ok.injEq, Prod.mk.injEq, true_and] at h3
-  obtain ⟨b4, l4, v4⟩ := emitBytes_ok h4
-  subst h3
-  subst h1
-  refine ⟨by rw [b4]; simp, ⟨by rw [v4.ids], by rw [v4.next], by rw [v4.data]⟩⟩
 
 theorem pairwise_inj {α : Type} {l : List α} {f : α → Nat} (h : l.Pairwise (fun p q => f p ≠ f q)) :
     ∀ a b, a ∈ l → b ∈ l → f a = f b → a = b := by
